@@ -252,6 +252,11 @@ func (im *impl) Exec(h *vh.H, op string) string {
 			return "bad-op"
 		}
 		return im.execQuery(h, op, nodes)
+	case "hist": // history.go
+		if len(nodes) < 3 {
+			return "bad-op"
+		}
+		return im.execHistory(h, op, nodes)
 	}
 	return "bad-op"
 }
